@@ -168,7 +168,7 @@ def one_run(ctx, sc, idx, keep_lf=False):
 
 
 def nstates(t):
-    return 3 if t["status"] != 1 else len(t["wins"]) + 4
+    return 3 if t["status"] != 1 or not t["wins"] else len(t["wins"]) + 4
 
 
 def scenarios(ctx):
@@ -194,6 +194,11 @@ def scenarios(ctx):
             k += 1
             big.append({"n": 384, "nshank": 4, "map": m, "gain": list(g), "w": ws[(j + k) % 3], "ns": [2999, 4037, 3613][k % 3],
                         "seed": seed + k})
+    # recordings longer than the reconstructor's own (hard-wired) window of 60000 samples: several windows on the way back too
+    for j, ns in enumerate([61234, 120000] if ctx.quick else [60001, 61234, 119999, 120000, 125017, 180001]):
+        k += 1
+        big.append({"n": 8, "nshank": 2 + j % 3, "map": maps[1 + j % 6], "gain": list(n2.GAINSETS[j % 4]), "w": [30000, 23988][j % 2], "ns": ns,
+                    "seed": seed + k})
     # the same converter object re-parameterised and re-run with overwrite (process(overwrite) is a method argument)
     reuse = [dict(s, reuse_first_w=[2400, 3612, 1200][i % 3], seed=s["seed"] + 50000) for i, s in enumerate(scs[:: max(1, len(scs) // 6)][:6])]
     return scs + big + reuse
@@ -237,6 +242,7 @@ def run(ctx, clauses=C03_CLAUSES, pid="C03", extra_scenarios=None, post=None):
         ctx.count(1, key=(sc["n"], sc["map"], tuple(sc["gain"]), sc["w"], sc["ns"], sc["nshank"]))
     verdicts = validate(ctx, traces, "np2split")
     report(ctx, scs, traces, verdicts, clauses, pid)
+    report_unbound(ctx)
     for sc, t in list(zip(scs, traces))[:2] + list(zip(scs, traces))[-1:]:
         ctx.sample({"scenario": sc, "nwin": t["wins"][0]["nwin"] if t["wins"] else None,
                     "windows": [[x["first"], x["last"], x["iw"], x["ap"][:2], x["lf"][:2]] for x in t["wins"][:4]],
@@ -253,6 +259,13 @@ def replay_shankcols(ctx, cases):
     import spikeglx
     import neuropixel
     rc = neuropixel.NP2Reconstructor.__new__(neuropixel.NP2Reconstructor)
+    missing = [nm for nm, ok in (("spikeglx._get_savedChans_subset", hasattr(spikeglx, "_get_savedChans_subset")),
+                                 ("NP2Reconstructor._get_chans", hasattr(rc, "_get_chans"))) if not ok]
+    if missing:
+        # private helpers: when they are renamed or inlined, the round trip of the channel list is still exercised end to end by the
+        # reconstruction of every converted recording (clauses Reconstruct:bytes / Reconstruct:meta)
+        ctx.spec_drift(f"{', '.join(missing)} not found: spec/lib/ShankCols.tla is not replayed function by function")
+        return
     n = 0
     for c in cases:
         for sh in c["shanks"]:
@@ -294,11 +307,21 @@ def report(ctx, scs, traces, verdicts, clauses, pid):
             ctx.violation("split:" + (mine[0] if head != "Abnormal" else "Abnormal"),
                           f"NP2Converter({desc}): clause(s) {'|'.join(mine)} false (window {v['pos']}) "
                           f"{json.dumps(t['final'].get('detail', {}))[:300]}", {"scenario": sc})
+        elif v["impl"].startswith("unbound") and not v["prop"]:
+            pass    # reported once per run, below
         elif v["impl"] and not v["prop"]:
             ctx.spec_drift(f"NP2Converter({desc}): step {v['impl']} at window {v['pos']} is not a step of spec/sys/NP2Split.tla")
 
 
+def report_unbound(ctx):
+    for name in sorted(n2.UNBOUND):
+        ctx.spec_drift(f"instrumentation point {name} does not exist in this code: the window loop of spec/sys/NP2Split.tla is not bound, "
+                       "the runs are judged on the files they leave (black box)")
+
+
 def selftest(ctx, traces, bad, clauses):
+    if n2.UNBOUND:
+        return   # black-box mode: there are no window events to corrupt (already reported as drift)
     good = [i for i, t in enumerate(traces) if i not in bad and t["status"] == 1 and len(t["wins"]) >= 3][:6]
     if len(good) < 3:
         raise tlc.TLCError("selftest: not enough accepted multi-window traces")
